@@ -447,6 +447,7 @@ class RecHarness:
             recs = records(label)
             c = w.client._connection
             for inst in [i for i in w.zlog.instances if not i.closed]:
+                inst.zeroconf.cache.extend((w.loop.time(), r.new) for r in recs)  # an open instance hears (and caches) what is on the network
                 for lst in list(inst.zeroconf.listeners):
                     if matching and w.phase not in ("handshaking", "ready"):
                         w.record_instants.append(w.loop.time())
